@@ -1,60 +1,71 @@
-(* C10 — the catalogue / column-handle protocol: refutation witnesses for the unguarded statements and the
-   guarded safety theorem (queries that only reference columns every batch carries never panic, and neither does
-   the flush thread). *)
+(* C10 — the catalogue / column-handle protocol after the repairs 3a6284a and 7a0a728:
+   - no query ever panics (all schedules, absent columns and evictions included);
+   - without evictions nobody panics, no query is answered with an existing column reported as absent, the
+     compaction loses nothing and every catalogue entry stores every column (all schedules, absent-column
+     queries included): in particular the two F14a windows and the F14 schedule are now safe;
+   - with an eviction (F14b) the last three are refuted by witness schedules. *)
 From Coq Require Import List Bool Arith Lia.
 From LV Require Import Model.ConcSMCat.
 Import ListNotations.
 
 (* ---------------------------------------------------------------------------------------------- *)
-(* witnesses                                                                                        *)
+(* schedules                                                                                        *)
 
 Definition Cw : list nat := [0; 1].
 
-(* F14a, first window: the merged partition is in the table but not yet in the catalogue *)
-Definition witness_not_yet : list (option nat * cact) :=
+(* the former F14a / F14 witnesses (column 7 is in no partition) *)
+Definition sched_not_yet : list (option nat * cact) :=
   [(None, CBatch); (None, CClone); (None, CPersist); (None, CSkip);
    (None, CBatch); (None, CClone); (None, CPersist); (None, CBuild 0); (None, CSwap);
-   (Some 0, CSnapshot 7); (Some 0, CGetCols)].
+   (Some 0, CSnapshot 7); (Some 0, CGetCols); (Some 0, CGetCols)].
 
-(* F14a, second window: a running query still holds partitions that prepare_compact removed from the catalogue *)
-Definition witness_no_longer : list (option nat * cact) :=
+Definition sched_no_longer : list (option nat * cact) :=
   [(Some 0, CSnapshot 7);
    (None, CBatch); (None, CClone); (None, CPersist); (None, CBuild 0); (None, CSwap); (None, CPrepare);
-   (Some 0, CGetCols)].
+   (Some 0, CGetCols); (Some 0, CGetCols); (Some 0, CGetCols)].
 
-(* F14: a query inserts a placeholder handle into the partition the flush thread has just registered *)
-Definition witness_placeholder : list (option nat * cact) :=
-  [(None, CBatch); (Some 0, CSnapshot 7); (Some 0, CGetCols); (None, CClone)].
+Definition sched_placeholder : list (option nat * cact) :=
+  [(None, CBatch); (Some 0, CSnapshot 7); (Some 0, CGetCols); (None, CClone); (None, CPersist)].
 
-(* eviction: a PRESENT column of a partition that is registered in the table but not yet in the catalogue is
-   evicted; the query's load (and the flush thread's unwrap) fail *)
+(* F14b: column 0 (which every batch carries) of the freshly registered partition 0 is evicted before
+   persist_partitions *)
 Definition witness_evicted_query : list (option nat * cact) :=
-  [(None, CBatch); (None, CEvict); (Some 0, CSnapshot 0); (Some 0, CGetCols)].
+  [(None, CBatch); (None, CEvict 0 0); (Some 0, CSnapshot 0); (Some 0, CGetCols)].
 Definition witness_evicted_flush : list (option nat * cact) :=
-  [(None, CBatch); (None, CEvict); (None, CClone)].
+  [(None, CBatch); (None, CEvict 0 0); (None, CClone)].
+Definition witness_evicted_lost : list (option nat * cact) :=
+  [(None, CBatch); (None, CEvict 0 0); (Some 0, CSnapshot 0); (Some 0, CGetCols); (None, CClone); (None, CPersist)].
 
-Lemma witness_evicted_query_panics :
-  exists st, crun Cw witness_evicted_query (cinit Cw 0 1) = Some st /\ query_panicked st = true.
+Lemma sched_not_yet_ok :
+  exists st, crun Cw sched_not_yet (cinit Cw 0 1) = Some st /\
+             query_panicked st = false /\ query_wrong st = false /\ cqs st = [CQ_idle].
+Proof. eexists. split; [vm_compute; reflexivity|vm_compute; repeat split]. Qed.
+
+Lemma sched_no_longer_ok :
+  exists st, crun Cw sched_no_longer (cinit Cw 2 1) = Some st /\
+             query_panicked st = false /\ query_wrong st = false /\ cqs st = [CQ_idle].
+Proof. eexists. split; [vm_compute; reflexivity|vm_compute; repeat split]. Qed.
+
+Lemma sched_placeholder_ok :
+  exists st, crun Cw sched_placeholder (cinit Cw 0 1) = Some st /\
+             flush_panicked st = false /\ cat st = [(0, [0; 1])].
+Proof. eexists. split; [vm_compute; reflexivity|vm_compute; repeat split]. Qed.
+
+Lemma witness_evicted_query_wrong :
+  exists st, crun Cw witness_evicted_query (cinit Cw 0 1) = Some st /\ query_wrong st = true.
 Proof. eexists. split; [vm_compute; reflexivity|vm_compute; reflexivity]. Qed.
 
 Lemma witness_evicted_flush_panics :
   exists st, crun Cw witness_evicted_flush (cinit Cw 0 1) = Some st /\ flush_panicked st = true.
 Proof. eexists. split; [vm_compute; reflexivity|vm_compute; reflexivity]. Qed.
 
-Lemma witness_not_yet_panics :
-  exists st, crun Cw witness_not_yet (cinit Cw 0 1) = Some st /\ query_panicked st = true.
-Proof. eexists. split; [vm_compute; reflexivity|vm_compute; reflexivity]. Qed.
-
-Lemma witness_no_longer_panics :
-  exists st, crun Cw witness_no_longer (cinit Cw 2 1) = Some st /\ query_panicked st = true.
-Proof. eexists. split; [vm_compute; reflexivity|vm_compute; reflexivity]. Qed.
-
-Lemma witness_placeholder_panics :
-  exists st, crun Cw witness_placeholder (cinit Cw 0 1) = Some st /\ flush_panicked st = true.
-Proof. eexists. split; [vm_compute; reflexivity|vm_compute; reflexivity]. Qed.
+Lemma witness_evicted_lost_loses :
+  exists st, crun Cw witness_evicted_lost (cinit Cw 0 1) = Some st /\
+             flush_panicked st = false /\ data_lost Cw st = true /\ cat st = [(0, [1])].
+Proof. eexists. split; [vm_compute; reflexivity|vm_compute; repeat split]. Qed.
 
 (* ---------------------------------------------------------------------------------------------- *)
-(* the guarded theorem                                                                              *)
+(* small facts                                                                                      *)
 
 Lemma NoDup_app_snoc {A} (a : list A) x : NoDup a -> ~ In x a -> NoDup (a ++ [x]).
 Proof.
@@ -65,58 +76,188 @@ Proof.
     + apply IH; tauto.
 Qed.
 
+Lemma memn_in x l : memn x l = true <-> In x l.
+Proof.
+  induction l as [|y r IH]; simpl; [split; [discriminate|tauto]|].
+  rewrite orb_true_iff, IH, Nat.eqb_eq. split; intros [H|H]; auto.
+Qed.
+
+Lemma memn_false x l : memn x l = false <-> ~ In x l.
+Proof.
+  split.
+  - intros H I. apply memn_in in I. congruence.
+  - intro H. destruct (memn x l) eqn:E; [|reflexivity]. apply memn_in in E. contradiction.
+Qed.
+
+Lemma find_obj_in p os o : find_obj p os = Some o -> In o os /\ p_id o = p.
+Proof.
+  induction os as [|x r IH]; simpl; [discriminate|].
+  destruct (Nat.eqb p (p_id x)) eqn:E.
+  - intro H. injection H as <-. apply Nat.eqb_eq in E. auto.
+  - intro H. destruct (IH H). auto.
+Qed.
+
+Lemma nodup_ids_eq os o o' :
+  NoDup (map p_id os) -> In o os -> In o' os -> p_id o = p_id o' -> o = o'.
+Proof.
+  induction os as [|x r IH]; simpl; [tauto|]. intros ND. inversion ND as [|? ? NI ND']; subst.
+  intros [->|H] [->|H'] E; auto.
+  - exfalso. apply NI. rewrite E. apply in_map. exact H'.
+  - exfalso. apply NI. rewrite <- E. apply in_map. exact H.
+Qed.
+
+Lemma find_add_handle p col h os o :
+  find_obj p os = Some o ->
+  find_obj p (add_handle p col h os) = Some (mkP (p_id o) (p_eph o) ((col, h) :: p_h o)).
+Proof.
+  unfold add_handle. induction os as [|x r IH]; simpl; [discriminate|].
+  destruct (Nat.eqb p (p_id x)) eqn:E; simpl.
+  - intro H. injection H as <-. rewrite E. reflexivity.
+  - intro H. rewrite E. apply IH. exact H.
+Qed.
+
+Lemma in_add_handle p col h os o' :
+  In o' (add_handle p col h os) ->
+  exists x, In x os /\ o' = (if Nat.eqb p (p_id x) then mkP (p_id x) (p_eph x) ((col, h) :: p_h x) else x).
+Proof.
+  unfold add_handle. intro I. apply in_map_iff in I. destruct I as (x & E & Ix). exists x. auto.
+Qed.
+
+Lemma assoc_in {A} k (l : list (nat * A)) v : assoc k l = Some v -> In (k, v) l.
+Proof.
+  induction l as [|[j w] r IH]; simpl; [discriminate|].
+  destruct (Nat.eqb k j) eqn:E.
+  - intro H. injection H as <-. apply Nat.eqb_eq in E. subst. auto.
+  - auto.
+Qed.
+
+Lemma assoc_app_l {A} k (l1 l2 : list (nat * A)) : assoc k l1 <> None -> assoc k (l1 ++ l2) <> None.
+Proof.
+  induction l1 as [|[j v] r IH]; simpl; [congruence|].
+  destruct (Nat.eqb k j); auto.
+Qed.
+
+Lemma assoc_filter_keep k olds (l : list (nat * list nat)) :
+  memn k olds = false -> assoc k l <> None ->
+  assoc k (filter (fun e => negb (memn (fst e) olds)) l) <> None.
+Proof.
+  intro Hk. induction l as [|[j v] r IH]; simpl; [congruence|].
+  destruct (Nat.eqb k j) eqn:E.
+  - apply Nat.eqb_eq in E. subst j. rewrite Hk. simpl. rewrite Nat.eqb_refl. discriminate.
+  - intro H. destruct (negb (memn j olds)); simpl; [rewrite E|]; auto.
+Qed.
+
+Lemma in_updq n x l q : In q (updq n x l) -> q = x \/ In q l.
+Proof.
+  revert n. induction l as [|y r IH]; intros [|n]; simpl; try tauto.
+  - intros [H|H]; auto.
+  - intros [H|H]; auto. destruct (IH _ H); auto.
+Qed.
+
+Lemma get_cols_never_panics os ct p col : get_cols os ct p col <> GCpanic.
+Proof.
+  unfold get_cols. destruct (find_obj p os) as [o|]; [|discriminate].
+  destruct (assoc col (p_h o)) as [[| |]|]; try discriminate;
+    try (destruct (assoc p ct); discriminate).
+  destruct (p_eph o); [discriminate|]. destruct (assoc p ct); discriminate.
+Qed.
+
+(* ---------------------------------------------------------------------------------------------- *)
+(* no query ever panics (unconditionally)                                                           *)
+
+Section AnyColumns.
+  Variable C : list nat.
+
+  Definition NoQPanic (st : cstate) : Prop := forall q, In q (cqs st) -> q <> CQ_panic.
+
+  Lemma noqpanic_step t a st st' : NoQPanic st -> cstep C t a st = Some st' -> NoQPanic st'.
+  Proof.
+    intros HI H. unfold cstep in H.
+    assert (G : match t with None => fstep C a st | Some n => qstep C n a st end = Some st' -> NoQPanic st').
+    { clear H. destruct t as [n|].
+      - unfold qstep. destruct (nth_error (cqs st) n) as [q|]; [|discriminate].
+        destruct q as [|todo col| |]; [|destruct todo as [|p r]| |]; destruct a; try discriminate.
+        + intro H. injection H as <-. intros q Iq. simpl in Iq. apply in_updq in Iq.
+          destruct Iq as [->|Iq]; [discriminate|auto].
+        + intro H. injection H as <-. intros q Iq. simpl in Iq. apply in_updq in Iq.
+          destruct Iq as [->|Iq]; [discriminate|auto].
+        + assert (NP := get_cols_never_panics (objs st) (cat st) p col).
+          destruct (get_cols (objs st) (cat st) p col) as [os'| |]; [|congruence|discriminate].
+          intro H. injection H as <-. intros q Iq. simpl in Iq. apply in_updq in Iq.
+          destruct Iq as [->|Iq]; [destruct (memn col C && sees_empty os' p col); discriminate|auto].
+      - unfold fstep. intro H.
+        assert (E : cqs st' = cqs st).
+        { destruct (cfl st); destruct a; try discriminate;
+            repeat match type of H with
+                   | context [match ?x with _ => _ end] => destruct x; try discriminate
+                   end; injection H as <-; reflexivity. }
+        intros q Iq. rewrite E in Iq. auto. }
+    destruct a; try (apply G; exact H).
+    injection H as <-. exact HI.
+  Qed.
+
+  Lemma noqpanic_run sched : forall st st', NoQPanic st -> crun C sched st = Some st' -> NoQPanic st'.
+  Proof.
+    induction sched as [|[t a] r IH]; simpl; intros st st' HI H.
+    - injection H as <-. exact HI.
+    - destruct (cstep C t a st) as [st1|] eqn:E; [|discriminate].
+      eapply IH; [|exact H]. eapply noqpanic_step; eauto.
+  Qed.
+
+  Lemma query_never_panics nd nq sched st :
+    crun C sched (cinit C nd nq) = Some st -> query_panicked st = false.
+  Proof.
+    intro H. assert (NP : NoQPanic st).
+    { eapply noqpanic_run; [|exact H]. intros q Iq. simpl in Iq. apply repeat_spec in Iq. subst. discriminate. }
+    unfold query_panicked. destruct (existsb _ (cqs st)) eqn:E; [|reflexivity].
+    apply existsb_exists in E. destruct E as (q & Iq & Hq). destruct q; try discriminate.
+    exfalso. exact (NP _ Iq eq_refl).
+  Qed.
+End AnyColumns.
+
+(* ---------------------------------------------------------------------------------------------- *)
+(* without evictions                                                                                *)
+
 Section Guarded.
   Variable C : list nat.
 
-  Definition has_all (o : pobj) : Prop := forall c, In c C -> assoc c (p_h o) <> None.
+  Definition has_all_res (o : pobj) : Prop := forall c, In c C -> assoc c (p_h o) = Some HRes.
 
-  Lemma assoc_full c : In c C -> assoc c (full_handles C) <> None.
+  Lemma assoc_full c : In c C -> assoc c (full_handles C) = Some HRes.
   Proof.
     unfold full_handles. induction C as [|x r IH]; simpl; [tauto|].
     intros [->|H].
-    - rewrite Nat.eqb_refl. discriminate.
-    - destruct (Nat.eqb c x); [discriminate|]. apply IH. exact H.
+    - rewrite Nat.eqb_refl. reflexivity.
+    - destruct (Nat.eqb c x); [reflexivity|]. apply IH. exact H.
   Qed.
 
-  Lemma all_res_full i e : all_res (mkP i e (full_handles C)) = true.
-  Proof. unfold all_res, full_handles. simpl. induction C as [|x r IH]; simpl; auto. Qed.
-
-  Lemma find_obj_in p os o : find_obj p os = Some o -> In o os /\ p_id o = p.
+  Lemma assoc_full_inv c h : assoc c (full_handles C) = Some h -> h = HRes /\ In c C.
   Proof.
-    induction os as [|x r IH]; simpl; [discriminate|].
-    destruct (Nat.eqb p (p_id x)) eqn:E.
+    unfold full_handles. induction C as [|x r IH]; simpl; [discriminate|].
+    destruct (Nat.eqb c x) eqn:E.
     - intro H. injection H as <-. apply Nat.eqb_eq in E. auto.
     - intro H. destruct (IH H). auto.
   Qed.
 
-  Lemma nodup_ids_eq os o o' :
-    NoDup (map p_id os) -> In o os -> In o' os -> p_id o = p_id o' -> o = o'.
-  Proof.
-    induction os as [|x r IH]; simpl; [tauto|]. intros ND. inversion ND as [|? ? NI ND']; subst.
-    intros [->|H] [->|H'] E; auto.
-    - exfalso. apply NI. rewrite E. apply in_map. exact H'.
-    - exfalso. apply NI. rewrite <- E. apply in_map. exact H.
-  Qed.
+  (* object-level invariant w.r.t. a catalogue *)
+  Definition ObjOK (ct : list (nat * list nat)) (o : pobj) : Prop :=
+    (forall c h, assoc c (p_h o) = Some h -> h <> HEvicted /\ (In c C -> h = HRes)) /\
+    (p_eph o = true -> has_all_res o) /\
+    (p_eph o = false -> has_all_res o \/ assoc (p_id o) ct <> None).
 
-  (* how one object may change while queries and the flush thread read columns in C *)
+  Definition CatOK (ct : list (nat * list nat)) : Prop :=
+    forall p stored, In (p, stored) ct -> forall c, In c C -> memn c stored = true.
+
+  (* how one object may change *)
   Definition R (o o' : pobj) : Prop :=
     p_id o' = p_id o /\ p_eph o' = p_eph o /\
-    (forall c, assoc c (p_h o) <> None -> assoc c (p_h o') <> None) /\
-    (p_eph o = true -> p_h o' = p_h o) /\
-    (forall c, assoc c (p_h o') = Some HEvicted -> assoc c (p_h o) = Some HEvicted).
+    (forall c, In c C -> assoc c (p_h o) = Some HRes -> assoc c (p_h o') = Some HRes).
 
   Lemma R_refl o : R o o.
   Proof. repeat split; auto. Qed.
 
   Lemma R_trans a b c : R a b -> R b c -> R a c.
-  Proof.
-    intros (A1 & A2 & A3 & A4 & A5) (B1 & B2 & B3 & B4 & B5). repeat split.
-    - congruence.
-    - congruence.
-    - auto.
-    - intro E. rewrite B4 by congruence. auto.
-    - auto.
-  Qed.
+  Proof. intros (A1 & A2 & A3) (B1 & B2 & B3). repeat split; [congruence|congruence|auto]. Qed.
 
   Lemma Forall2_R_refl os : Forall2 R os os.
   Proof. induction os; constructor; auto using R_refl. Qed.
@@ -138,106 +279,145 @@ Section Guarded.
     - destruct (IH I) as (o & Io & Ro). exists o. auto.
   Qed.
 
-  Lemma Forall2_in_l a b o : Forall2 R a b -> In o a -> exists o', In o' b /\ R o o'.
+  (* adding a handle for a column that has none *)
+  Lemma add_handle_ok ct p col h os o :
+    NoDup (map p_id os) -> (forall x, In x os -> ObjOK ct x) ->
+    find_obj p os = Some o -> assoc col (p_h o) = None ->
+    h <> HEvicted -> (In col C -> h = HRes) ->
+    Forall2 R os (add_handle p col h os) /\
+    (forall o', In o' (add_handle p col h os) -> ObjOK ct o') /\
+    (forall o', In o' (add_handle p col h os) -> p_id o' = p -> assoc col (p_h o') = Some h).
   Proof.
-    induction 1 as [|x y r s H _ IH]; simpl; [tauto|]. intros [<-|I].
-    - exists y. auto.
-    - destruct (IH I) as (o' & Io & Ro). exists o'. auto.
-  Qed.
-
-  Lemma add_handle_R p col h os o :
-    NoDup (map p_id os) -> find_obj p os = Some o -> p_eph o = false -> h <> HEvicted ->
-    Forall2 R os (add_handle p col h os).
-  Proof.
-    intros ND F NE NH. destruct (find_obj_in _ _ _ F) as (Io & Ip).
-    unfold add_handle.
-    assert (G : forall l, incl l os -> Forall2 R l (map (fun o0 => if Nat.eqb p (p_id o0)
-                 then mkP (p_id o0) (p_eph o0) ((col, h) :: p_h o0) else o0) l)).
-    { induction l as [|x r IH]; simpl; intro I; constructor.
-      - destruct (Nat.eqb p (p_id x)) eqn:E; [|apply R_refl].
-        apply Nat.eqb_eq in E. assert (x = o).
-        { apply (nodup_ids_eq os); auto. apply I. left. reflexivity. congruence. }
-        subst x. repeat split; simpl; auto.
-        + intros c Hc. destruct (Nat.eqb c col); [discriminate|exact Hc].
-        + congruence.
-        + intros c. destruct (Nat.eqb c col); [|auto]. intro E0. congruence.
-      - apply IH. intros y Hy. apply I. right. exact Hy. }
-    apply G. apply incl_refl.
-  Qed.
-
-  Lemma add_handle_has p col h os o' :
-    In o' (add_handle p col h os) -> p_id o' = p -> assoc col (p_h o') <> None.
-  Proof.
-    unfold add_handle. intro I. apply in_map_iff in I. destruct I as (x & E & _).
-    destruct (Nat.eqb p (p_id x)) eqn:Ep.
-    - subst o'. simpl. rewrite Nat.eqb_refl. discriminate.
-    - subst o'. intro E. apply Nat.eqb_neq in Ep. congruence.
-  Qed.
-
-  (* object-level invariant w.r.t. a catalogue *)
-  Definition ObjOK (ct : list (nat * list nat)) (o : pobj) : Prop :=
-    (p_eph o = true -> p_h o = full_handles C) /\
-    (p_eph o = false -> has_all o \/ assoc (p_id o) ct <> None) /\
-    (forall c, assoc c (p_h o) <> Some HEvicted).
-
-  Lemma ObjOK_R ct o o' : ObjOK ct o -> R o o' -> ObjOK ct o'.
-  Proof.
-    intros (A & B & NE) (R1 & R2 & R3 & R4 & R5). split; [|split].
-    - intro E. rewrite R2 in E. rewrite R4 by exact E. auto.
-    - intro E. rewrite R2 in E. destruct (B E) as [H|H].
-      + left. intros c Hc. apply R3. apply H. exact Hc.
-      + right. rewrite R1. exact H.
-    - intros c E. exact (NE c (R5 c E)).
+    intros ND OK F Hn NE HC. destruct (find_obj_in _ _ _ F) as (Io & Ip).
+    assert (U : forall x, In x os -> Nat.eqb p (p_id x) = true -> x = o).
+    { intros x Ix E. apply Nat.eqb_eq in E. apply (nodup_ids_eq os); auto. congruence. }
+    split; [|split].
+    - unfold add_handle.
+      assert (G : forall l, incl l os -> Forall2 R l (map (fun o0 => if Nat.eqb p (p_id o0)
+                   then mkP (p_id o0) (p_eph o0) ((col, h) :: p_h o0) else o0) l)).
+      { induction l as [|x r IH]; simpl; intro I; constructor.
+        - destruct (Nat.eqb p (p_id x)) eqn:E; [|apply R_refl].
+          assert (x = o) by (apply U; [apply I; left; reflexivity|exact E]). subst x.
+          repeat split; simpl; auto. intros c Hc Hr.
+          destruct (Nat.eqb c col) eqn:Ec; [|exact Hr]. apply Nat.eqb_eq in Ec. subst c. congruence.
+        - apply IH. intros y Hy. apply I. right. exact Hy. }
+      apply G. apply incl_refl.
+    - intros o' I'. destruct (in_add_handle _ _ _ _ _ I') as (x & Ix & ->).
+      destruct (Nat.eqb p (p_id x)) eqn:E; [|auto].
+      assert (x = o) by (apply U; assumption). subst x.
+      destruct (OK o Io) as (K & Fu & Ne). split; [|split]; simpl.
+      + intros c k. destruct (Nat.eqb c col) eqn:Ec.
+        * intro H. injection H as <-. apply Nat.eqb_eq in Ec. subst c. auto.
+        * apply K.
+      + intros Ee c Hc. simpl. destruct (Nat.eqb c col) eqn:Ec.
+        * apply Nat.eqb_eq in Ec. subst c. rewrite (Fu Ee col Hc) in Hn. discriminate.
+        * apply Fu; assumption.
+      + intros Ee. destruct (Ne Ee) as [H|H]; [|right; exact H].
+        left. intros c Hc. simpl. destruct (Nat.eqb c col) eqn:Ec.
+        * apply Nat.eqb_eq in Ec. subst c. rewrite (H col Hc) in Hn. discriminate.
+        * apply H; assumption.
+    - intros o' I' E'. destruct (in_add_handle _ _ _ _ _ I') as (x & Ix & ->).
+      destruct (Nat.eqb p (p_id x)) eqn:E.
+      + simpl. rewrite Nat.eqb_refl. reflexivity.
+      + apply Nat.eqb_neq in E. congruence.
   Qed.
 
   Lemma get_cols_ok os ct p col :
-    NoDup (map p_id os) -> (forall o, In o os -> ObjOK ct o) -> In col C ->
+    NoDup (map p_id os) -> (forall o, In o os -> ObjOK ct o) -> CatOK ct ->
     match get_cols os ct p col with
-    | GCok os' => Forall2 R os os' /\ (forall o', In o' os' -> p_id o' = p -> assoc col (p_h o') <> None)
+    | GCok os' => Forall2 R os os' /\ (forall o', In o' os' -> ObjOK ct o') /\
+                  (In col C -> forall o', In o' os' -> p_id o' = p -> assoc col (p_h o') = Some HRes)
     | GCpanic => False
     | GCstuck => True
     end.
   Proof.
-    intros ND OK Hc. unfold get_cols.
+    intros ND OK CO. unfold get_cols.
     destruct (find_obj p os) as [o|] eqn:F; [|exact I].
-    destruct (find_obj_in _ _ _ F) as (Io & Ip). destruct (OK o Io) as (A & B & NE).
+    destruct (find_obj_in _ _ _ F) as (Io & Ip). destruct (OK o Io) as (K & Fu & Ne).
     destruct (assoc col (p_h o)) as [h|] eqn:Ea.
-    - assert (G : Forall2 R os os /\ (forall o', In o' os -> p_id o' = p -> assoc col (p_h o') <> None)).
-      { split; [apply Forall2_R_refl|]. intros o' I' E'.
-        assert (o' = o) by (apply (nodup_ids_eq os); auto; congruence). subst o'. congruence. }
-      destruct h; [exact G|exact G|]. exfalso. exact (NE col Ea).
+    - assert (G : Forall2 R os os /\ (forall o', In o' os -> ObjOK ct o') /\
+                  (In col C -> forall o', In o' os -> p_id o' = p -> assoc col (p_h o') = Some HRes)).
+      { split; [apply Forall2_R_refl|split; [exact OK|]]. intros Hc o' I' E'.
+        assert (o' = o) by (apply (nodup_ids_eq os); auto; congruence). subst o'.
+        rewrite Ea. f_equal. apply (K col h Ea). exact Hc. }
+      destruct h; [exact G|exact G|]. exfalso. exact (proj1 (K col _ Ea) eq_refl).
     - destruct (p_eph o) eqn:Ee.
-      + exfalso. rewrite (A eq_refl) in Ea. exact (assoc_full col Hc Ea).
-      + destruct (B eq_refl) as [H|H]; [exfalso; exact (H col Hc Ea)|].
-        rewrite Ip in H. destruct (assoc p ct) as [stored|]; [|congruence].
-        split; [eapply add_handle_R; eauto; destruct (memn col stored); discriminate|].
-        intros o' I' E'. eapply add_handle_has; eauto.
+      + assert (NC : ~ In col C) by (intro Hc; rewrite (Fu eq_refl col Hc) in Ea; discriminate).
+        destruct (add_handle_ok ct p col HEmpty os o ND OK F Ea) as (A1 & A2 & A3); [discriminate|tauto|].
+        split; [exact A1|split; [exact A2|tauto]].
+      + destruct (assoc p ct) as [stored|] eqn:Ec.
+        * assert (HC : In col C -> (if memn col stored then HRes else HEmpty) = HRes).
+          { intro Hc. rewrite (CO p stored (assoc_in _ _ _ Ec) col Hc). reflexivity. }
+          destruct (add_handle_ok ct p col (if memn col stored then HRes else HEmpty) os o ND OK F Ea)
+            as (A1 & A2 & A3); [destruct (memn col stored); discriminate|exact HC|].
+          split; [exact A1|split; [exact A2|]]. intros Hc o' I' E'. rewrite (A3 o' I' E'). f_equal. auto.
+        * assert (NC : ~ In col C).
+          { intro Hc. destruct (Ne eq_refl) as [H|H]; [rewrite (H col Hc) in Ea; discriminate|].
+            rewrite Ip in H. congruence. }
+          destruct (add_handle_ok ct p col HEmpty os o ND OK F Ea) as (A1 & A2 & A3); [discriminate|tauto|].
+          split; [exact A1|split; [exact A2|tauto]].
+  Qed.
+
+  Lemma sees_empty_false os p col :
+    (forall o', In o' os -> p_id o' = p -> assoc col (p_h o') = Some HRes) -> sees_empty os p col = false.
+  Proof.
+    intro H. unfold sees_empty. destruct (find_obj p os) as [o|] eqn:F; [|reflexivity].
+    destruct (find_obj_in _ _ _ F) as (Io & Ip). rewrite (H o Io Ip). reflexivity.
   Qed.
 
   Lemma get_cols_all_ok ct work : forall os,
-    NoDup (map p_id os) -> (forall o, In o os -> ObjOK ct o) -> (forall pc, In pc work -> In (snd pc) C) ->
-    match get_cols_all os ct work with
-    | GCok os' => Forall2 R os os' /\
-                  (forall p c o', In (p, c) work -> In o' os' -> p_id o' = p -> assoc c (p_h o') <> None)
-    | GCpanic => False
-    | GCstuck => True
+    NoDup (map p_id os) -> (forall o, In o os -> ObjOK ct o) -> CatOK ct ->
+    (forall pc, In pc work -> In (snd pc) C) ->
+    match get_cols_all C os ct work with
+    | GAok os' => Forall2 R os os' /\ (forall o', In o' os' -> ObjOK ct o') /\
+                  (forall p c o', In (p, c) work -> In o' os' -> p_id o' = p -> assoc c (p_h o') = Some HRes)
+    | GAlost _ => False
+    | GAstuck => True
     end.
   Proof.
-    induction work as [|[p c] r IH]; simpl; intros os ND OK HC.
-    - split; [apply Forall2_R_refl|]. intros ? ? ? [].
-    - assert (G := get_cols_ok os ct p c ND OK (HC (p, c) (or_introl eq_refl))).
-      destruct (get_cols os ct p c) as [os1| |]; [|contradiction|exact I].
-      destruct G as (F1 & H1).
+    induction work as [|[p c] r IH]; simpl; intros os ND OK CO HC.
+    - split; [apply Forall2_R_refl|split; [exact OK|]]. intros ? ? ? [].
+    - assert (Hc : In c C) by (apply (HC (p, c)); left; reflexivity).
+      assert (G := get_cols_ok os ct p c ND OK CO).
+      destruct (get_cols os ct p c) as [os1| |]; [|exact I|exact I].
+      destruct G as (F1 & OK1 & H1).
+      rewrite (sees_empty_false os1 p c (H1 Hc)), andb_false_r.
       assert (ND1 : NoDup (map p_id os1)) by (rewrite (Forall2_R_ids _ _ F1); exact ND).
-      assert (OK1 : forall o, In o os1 -> ObjOK ct o).
-      { intros o' I'. destruct (Forall2_in_r _ _ _ F1 I') as (o & Io & Ro). eapply ObjOK_R; eauto. }
-      specialize (IH os1 ND1 OK1 (fun pc H => HC pc (or_intror H))).
-      destruct (get_cols_all os1 ct r) as [os2| |]; [|contradiction|exact I].
-      destruct IH as (F2 & H2). split; [eapply Forall2_R_trans; eauto|].
+      specialize (IH os1 ND1 OK1 CO (fun pc H => HC pc (or_intror H))).
+      destruct (get_cols_all C os1 ct r) as [os2|os2|]; [|contradiction|exact I].
+      destruct IH as (F2 & OK2 & H2). split; [eapply Forall2_R_trans; eauto|split; [exact OK2|]].
       intros p0 c0 o2 [E|I0] I2 E2.
-      + injection E as <- <-. destruct (Forall2_in_r _ _ _ F2 I2) as (o1 & I1 & (R1 & _ & R3 & _)).
-        apply R3. apply H1; [exact I1|congruence].
+      + injection E as <- <-. destruct (Forall2_in_r _ _ _ F2 I2) as (o1 & I1 & (R1 & _ & R3)).
+        apply R3; [exact Hc|]. apply (H1 Hc o1 I1). congruence.
       + eapply H2; eauto.
+  Qed.
+
+  (* the columns the flush thread persists *)
+  Lemma clone_cols_ok h : forall seen,
+    (forall c k, ~ In c seen -> assoc c h = Some k -> k <> HEvicted) ->
+    exists cols, clone_cols seen h = Some cols /\
+                 (forall c, ~ In c seen -> assoc c h = Some HRes -> memn c cols = true).
+  Proof.
+    induction h as [|[c0 k0] r IH]; simpl; intros seen NE.
+    - exists []. split; [reflexivity|]. intros c _ H. discriminate.
+    - destruct (memn c0 seen) eqn:Em.
+      + apply memn_in in Em. destruct (IH seen) as (cols & E & Hc).
+        { intros c k Hs Ha. apply (NE c k Hs). destruct (Nat.eqb c c0) eqn:Ec; [|exact Ha].
+          apply Nat.eqb_eq in Ec. subst. contradiction. }
+        exists cols. split; [exact E|]. intros c Hs Ha. apply Hc; [exact Hs|].
+        destruct (Nat.eqb c c0) eqn:Ec; [|exact Ha]. apply Nat.eqb_eq in Ec. subst. contradiction.
+      + apply memn_false in Em.
+        assert (K0 : k0 <> HEvicted) by (apply (NE c0 k0 Em); rewrite Nat.eqb_refl; reflexivity).
+        destruct (IH (c0 :: seen)) as (cols & E & Hc).
+        { intros c k Hs Ha. apply (NE c k); [intro; apply Hs; right; assumption|].
+          destruct (Nat.eqb c c0) eqn:Ec; [|exact Ha]. apply Nat.eqb_eq in Ec. subst. exfalso. apply Hs. left. reflexivity. }
+        rewrite E. destruct k0; [| |congruence].
+        * exists (c0 :: cols). split; [reflexivity|]. intros c Hs Ha. simpl.
+          destruct (Nat.eqb c c0) eqn:Ec; [reflexivity|]. simpl. apply Hc; [|exact Ha].
+          intros [<-|I]; [rewrite Nat.eqb_refl in Ec; discriminate|contradiction].
+        * exists cols. split; [reflexivity|]. intros c Hs Ha.
+          destruct (Nat.eqb c c0) eqn:Ec; [discriminate|]. apply Hc; [|exact Ha].
+          intros [<-|I]; [rewrite Nat.eqb_refl in Ec; discriminate|contradiction].
   Qed.
 
   (* the global invariant *)
@@ -247,158 +427,135 @@ Section Guarded.
   Record CInv (st : cstate) : Prop := mkCInv {
     ci_nodup : NoDup (map p_id (objs st));
     ci_fresh : forall o, In o (objs st) -> p_id o < cnext st;
+    ci_cat : CatOK (cat st);
     ci_obj : forall o, In o (objs st) -> ObjOK (cat st) o;
-    ci_olds : forall o, In o (objs st) -> In (p_id o) (olds_of (cfl st)) -> p_eph o = true \/ has_all o;
+    ci_olds : forall o, In o (objs st) -> In (p_id o) (olds_of (cfl st)) -> has_all_res o;
     ci_new : forall p, cfl st = CF_batched p -> forall o, In o (objs st) -> p_id o = p -> p_eph o = true;
-    ci_fl : cfl st <> CF_panic;
-    ci_q : forall q, In q (cqs st) -> match q with CQ_panic => False | CQ_run _ col => In col C | CQ_idle => True end }.
-
-  Lemma in_updq n x l q : In q (updq n x l) -> q = x \/ In q l.
-  Proof.
-    revert n. induction l as [|y r IH]; intros [|n]; simpl; try tauto.
-    - intros [H|H]; auto.
-    - intros [H|H]; auto. destruct (IH _ H); auto.
-  Qed.
+    ci_cloned : forall p cols, cfl st = CF_cloned p cols -> forall c, In c C -> memn c cols = true;
+    ci_fl : cfl st <> CF_panic /\ cfl st <> CF_lost;
+    ci_q : forall q, In q (cqs st) -> q <> CQ_panic /\ q <> CQ_wrong }.
 
   Lemma cinv_objs_R st os' :
     CInv st -> Forall2 R (objs st) os' ->
     NoDup (map p_id os') /\ (forall o, In o os' -> p_id o < cnext st) /\
-    (forall o, In o os' -> ObjOK (cat st) o) /\
-    (forall o, In o os' -> In (p_id o) (olds_of (cfl st)) -> p_eph o = true \/ has_all o) /\
+    (forall o, In o os' -> In (p_id o) (olds_of (cfl st)) -> has_all_res o) /\
     (forall p, cfl st = CF_batched p -> forall o, In o os' -> p_id o = p -> p_eph o = true).
   Proof.
-    intros [] F. split; [|split; [|split; [|split]]].
+    intros [] F. split; [|split; [|split]].
     - rewrite (Forall2_R_ids _ _ F). assumption.
     - intros o' I'. destruct (Forall2_in_r _ _ _ F I') as (o & Io & (R1 & _)). rewrite R1. auto.
-    - intros o' I'. destruct (Forall2_in_r _ _ _ F I') as (o & Io & Ro). eapply ObjOK_R; eauto.
-    - intros o' I' Ho. destruct (Forall2_in_r _ _ _ F I') as (o & Io & (R1 & R2 & R3 & R4)).
-      rewrite R1 in Ho. destruct (ci_olds0 o Io Ho) as [H|H].
-      + left. congruence.
-      + right. intros c Hc. apply R3. apply H. exact Hc.
+    - intros o' I' Ho. destruct (Forall2_in_r _ _ _ F I') as (o & Io & (R1 & R2 & R3)).
+      rewrite R1 in Ho. intros c Hc. apply R3; [exact Hc|]. apply (ci_olds0 o Io Ho). exact Hc.
     - intros p Ep o' I' E'. destruct (Forall2_in_r _ _ _ F I') as (o & Io & (R1 & R2 & _)).
       rewrite R2. eapply ci_new0; eauto. congruence.
   Qed.
 
-  Lemma assoc_app_l {A} k (l1 l2 : list (nat * A)) : assoc k l1 <> None -> assoc k (l1 ++ l2) <> None.
+  Lemma objok_full ct i e : e = true \/ assoc i ct <> None -> ObjOK ct (mkP i e (full_handles C)).
   Proof.
-    induction l1 as [|[j v] r IH]; simpl; [congruence|].
-    destruct (Nat.eqb k j); auto.
+    intro H. split; [|split]; simpl.
+    - intros c h Ha. destruct (assoc_full_inv c h Ha) as (-> & _). split; [discriminate|reflexivity].
+    - intros _ c Hc. apply assoc_full. exact Hc.
+    - intros _. left. intros c Hc. apply assoc_full. exact Hc.
   Qed.
 
-  Lemma assoc_app_r {A} k (l1 l2 : list (nat * A)) : assoc k l2 <> None -> assoc k (l1 ++ l2) <> None.
-  Proof.
-    induction l1 as [|[j v] r IH]; simpl; [auto|].
-    destruct (Nat.eqb k j); [discriminate|auto].
-  Qed.
-
-  Lemma assoc_filter_keep k olds (l : list (nat * list nat)) :
-    memn k olds = false -> assoc k l <> None ->
-    assoc k (filter (fun e => negb (memn (fst e) olds)) l) <> None.
-  Proof.
-    intro Hk. induction l as [|[j v] r IH]; simpl; [congruence|].
-    destruct (Nat.eqb k j) eqn:E.
-    - apply Nat.eqb_eq in E. subst j. rewrite Hk. simpl. rewrite Nat.eqb_refl. discriminate.
-    - intro H. destruct (negb (memn j olds)); simpl; [rewrite E|]; auto.
-  Qed.
-
-  Lemma memn_in x l : memn x l = true <-> In x l.
-  Proof.
-    induction l as [|y r IH]; simpl; [split; [discriminate|tauto]|].
-    rewrite orb_true_iff, IH, Nat.eqb_eq. split; intros [H|H]; auto.
-  Qed.
-
-  Lemma full_not_evicted c : assoc c (full_handles C) <> Some HEvicted.
-  Proof.
-    unfold full_handles. induction C as [|x r IH]; simpl; [discriminate|].
-    destruct (Nat.eqb c x); [discriminate|exact IH].
-  Qed.
-
-  Lemma has_all_full i e : has_all (mkP i e (full_handles C)).
-  Proof. intros c Hc. simpl. apply assoc_full. exact Hc. Qed.
+  Lemma objok_cat ct ct' o :
+    ObjOK ct o -> (p_eph o = false -> ~ has_all_res o -> assoc (p_id o) ct <> None -> assoc (p_id o) ct' <> None) ->
+    (p_eph o = false -> has_all_res o \/ assoc (p_id o) ct <> None -> has_all_res o \/ assoc (p_id o) ct' <> None) ->
+    ObjOK ct' o.
+  Proof. intros (K & Fu & Ne) _ H. split; [exact K|split; [exact Fu|]]. intro E. apply H; auto. Qed.
 
   Lemma cinv_step st t a st' :
-    CInv st -> (forall c, a = CSnapshot c -> In c C) -> a <> CEvict -> cstep C t a st = Some st' -> CInv st'.
+    CInv st -> (forall p c, a <> CEvict p c) -> cstep C t a st = Some st' -> CInv st'.
   Proof.
-    intros HI Hcol Hne H0.
-    assert (H : match t with None => fstep C a st | Some n => qstep n a st end = Some st').
-    { unfold cstep in H0. destruct a; try exact H0. congruence. }
+    intros HI Hne H0.
+    assert (H : match t with None => fstep C a st | Some n => qstep C n a st end = Some st').
+    { unfold cstep in H0. destruct a; try exact H0. exfalso. eapply Hne. reflexivity. }
     clear H0. destruct t as [n|]; simpl in H.
     - (* querier *)
       unfold qstep in H. destruct (nth_error (cqs st) n) as [q|] eqn:Hn; [|discriminate].
-      assert (Hq := ci_q _ HI q (nth_error_In _ _ Hn)).
-      destruct q as [|todo col|]; [|destruct todo as [|p r]|]; destruct a; simpl in H; try discriminate.
+      destruct q as [|todo col| |]; [|destruct todo as [|p r]| |]; destruct a; simpl in H; try discriminate.
       + injection H as <-. destruct HI. constructor; simpl; auto.
-        intros q Iq. apply in_updq in Iq. destruct Iq as [->|Iq]; [apply Hcol; reflexivity|exact (ci_q0 q Iq)].
+        intros q Iq. apply in_updq in Iq. destruct Iq as [->|Iq]; [split; discriminate|auto].
       + injection H as <-. destruct HI. constructor; simpl; auto.
-        intros q Iq. apply in_updq in Iq. destruct Iq as [->|Iq]; [exact I|exact (ci_q0 q Iq)].
-      + assert (G := get_cols_ok (objs st) (cat st) p col (ci_nodup _ HI) (ci_obj _ HI) Hq).
+        intros q Iq. apply in_updq in Iq. destruct Iq as [->|Iq]; [split; discriminate|auto].
+      + assert (G := get_cols_ok (objs st) (cat st) p col (ci_nodup _ HI) (ci_obj _ HI) (ci_cat _ HI)).
         destruct (get_cols (objs st) (cat st) p col) as [os'| |]; [|contradiction|discriminate].
-        destruct G as (F & _). injection H as <-.
-        destruct (cinv_objs_R st os' HI F) as (A1 & A2 & A3 & A4 & A5).
+        destruct G as (F & OK' & Hres). injection H as <-.
+        destruct (cinv_objs_R st os' HI F) as (A1 & A2 & A4 & A5).
         destruct HI. constructor; simpl; auto.
-        intros q Iq. apply in_updq in Iq. destruct Iq as [->|Iq]; [exact Hq|exact (ci_q0 q Iq)].
+        intros q Iq. apply in_updq in Iq. destruct Iq as [->|Iq]; [|auto].
+        destruct (memn col C) eqn:Em; simpl; [|split; discriminate].
+        apply memn_in in Em. rewrite (sees_empty_false os' p col (Hres Em)). split; discriminate.
     - (* flush thread *)
       unfold fstep in H. destruct (cfl st) eqn:Efl; destruct a; try discriminate.
       + (* CBatch *)
-        injection H as <-. destruct HI. constructor; simpl.
+        injection H as <-. destruct HI. constructor; simpl; auto; try (split; discriminate); try discriminate.
         * rewrite map_app. simpl. apply NoDup_app_snoc; [assumption|].
           intro I. apply in_map_iff in I. destruct I as (o & E & Io). specialize (ci_fresh0 o Io). lia.
         * intros o I. apply in_app_or in I. destruct I as [I|[<-|[]]]; [specialize (ci_fresh0 o I); lia|simpl; lia].
-        * intros o I. apply in_app_or in I. destruct I as [I|[<-|[]]]; [auto|].
-          split; [|split]; simpl; [reflexivity|discriminate|apply full_not_evicted].
+        * intros o I. apply in_app_or in I. destruct I as [I|[<-|[]]]; [auto|]. apply objok_full. left. reflexivity.
         * intros o _ [].
         * intros p E o I Ep. injection E as <-. apply in_app_or in I. destruct I as [I|[<-|[]]]; [|reflexivity].
           specialize (ci_fresh0 o I). lia.
-        * discriminate.
-        * assumption.
       + (* CClone *)
         destruct (find_obj p (objs st)) as [o|] eqn:F; [|discriminate]. injection H as <-.
         destruct (find_obj_in _ _ _ F) as (Io & Ip).
         assert (Ee : p_eph o = true) by (eapply (ci_new _ HI); eauto).
-        assert (Hh : p_h o = full_handles C) by (apply (ci_obj _ HI o Io); exact Ee).
-        assert (AR : all_res o = true).
-        { destruct o as [i e h]. simpl in *. subst h. apply all_res_full. }
-        rewrite AR. destruct HI. constructor; simpl; auto; try discriminate.
+        destruct (ci_obj _ HI o Io) as (K & Fu & _).
+        destruct (clone_cols_ok (p_h o) []) as (cols & Ec & Hc).
+        { intros c k _ Ha. apply (K c k Ha). }
+        rewrite Ec. destruct HI. constructor; simpl; auto; try (split; discriminate); try discriminate.
+        * intros o0 _ [].
+        * intros p0 cols0 E c Hin. injection E as <- <-. apply Hc; [tauto|]. apply Fu; assumption.
       + (* CPersist *)
-        injection H as <-. destruct HI. constructor; simpl; auto; try discriminate; try (intros o _ []; fail).
-        intros o Io. destruct (ci_obj0 o Io) as (A & B & NE). split; [exact A|split; [|exact NE]].
-        intro E. destruct (B E) as [H|H]; [left; exact H|right; apply assoc_app_l; exact H].
+        injection H as <-. assert (CL := ci_cloned _ HI p cols Efl).
+        destruct HI. constructor; simpl; auto; try (split; discriminate); try discriminate.
+        * intros p0 stored I c Hc. apply in_app_or in I. destruct I as [I|[E|[]]]; [eapply ci_cat0; eauto|].
+          injection E as <- <-. apply CL. exact Hc.
+        * intros o Io. destruct (ci_obj0 o Io) as (K & Fu & Ne). split; [exact K|split; [exact Fu|]].
+          intro E. destruct (Ne E) as [H|H]; [left; exact H|right; apply assoc_app_l; exact H].
+        * intros o _ [].
       + (* CSkip *)
-        injection H as <-. destruct HI. constructor; simpl; auto; try discriminate; try (intros o _ []; fail).
+        injection H as <-. destruct HI. constructor; simpl; auto; try (split; discriminate); try discriminate.
+        intros o _ [].
       + (* CBuild *)
         remember (skipn i (tparts st)) as olds eqn:Eo.
         destruct olds as [|o0 orest]; [discriminate|].
-        assert (G := get_cols_all_ok (cat st) (list_prod (o0 :: orest) C) (objs st) (ci_nodup _ HI) (ci_obj _ HI)).
+        assert (G := get_cols_all_ok (cat st) (list_prod (o0 :: orest) C) (objs st)
+                       (ci_nodup _ HI) (ci_obj _ HI) (ci_cat _ HI)).
         assert (HC : forall pc, In pc (list_prod (o0 :: orest) C) -> In (snd pc) C).
         { intros [p c] I. apply in_prod_iff in I. exact (proj2 I). }
         specialize (G HC).
-        destruct (get_cols_all (objs st) (cat st) (list_prod (o0 :: orest) C)) as [os'| |]; [|contradiction|discriminate].
-        destruct G as (F & Hall). injection H as <-.
-        destruct (cinv_objs_R st os' HI F) as (A1 & A2 & A3 & A4 & A5).
-        destruct HI. constructor; simpl; auto; try discriminate.
-        intros o Io Hin. right. intros c Hc. apply (Hall (p_id o) c o); auto.
+        destruct (get_cols_all C (objs st) (cat st) (list_prod (o0 :: orest) C)) as [os'|os'|]; [|contradiction|discriminate].
+        destruct G as (F & OK' & Hall). injection H as <-.
+        destruct (cinv_objs_R st os' HI F) as (A1 & A2 & A4 & A5).
+        destruct HI. constructor; simpl; auto; try (split; discriminate); try discriminate.
+        intros o Io Hin c Hc. apply (Hall (p_id o) c o); auto.
         apply in_prod_iff. split; assumption.
       + (* CSwap *)
-        injection H as <-. destruct HI. constructor; simpl.
+        injection H as <-. destruct HI. constructor; simpl; auto; try (split; discriminate); try discriminate.
         * rewrite map_app. simpl. apply NoDup_app_snoc; [assumption|].
           intro I. apply in_map_iff in I. destruct I as (o & E & Io). specialize (ci_fresh0 o Io). lia.
         * intros o I. apply in_app_or in I. destruct I as [I|[<-|[]]]; [specialize (ci_fresh0 o I); lia|simpl; lia].
         * intros o I. apply in_app_or in I. destruct I as [I|[<-|[]]]; [auto|].
-          split; [|split]; simpl; [discriminate| |apply full_not_evicted]. intros _. left. apply has_all_full.
+          split; [|split]; simpl.
+          -- intros c h Ha. destruct (assoc_full_inv c h Ha) as (-> & _). split; [discriminate|reflexivity].
+          -- discriminate.
+          -- intros _. left. intros c Hc. apply assoc_full. exact Hc.
         * intros o I Ho. apply in_app_or in I. destruct I as [I|[<-|[]]].
           -- rewrite Efl in ci_olds0. apply ci_olds0; assumption.
-          -- right. apply has_all_full.
-        * discriminate.
-        * discriminate.
-        * assumption.
+          -- intros c Hc. simpl. apply assoc_full. exact Hc.
       + (* CPrepare *)
-        injection H as <-. destruct HI. constructor; simpl; auto; try discriminate; try (intros o _ []; fail).
-        intros o Io. destruct (ci_obj0 o Io) as (A & B & NE). split; [exact A|split; [|exact NE]].
-        intro E. destruct (memn (p_id o) olds) eqn:Em.
-        * apply memn_in in Em. rewrite Efl in ci_olds0. simpl in ci_olds0.
-          destruct (ci_olds0 o Io Em) as [H|H]; [congruence|left; exact H].
-        * destruct (B E) as [H|H]; [left; exact H|right].
-          apply assoc_app_l. apply assoc_filter_keep; assumption.
+        injection H as <-. destruct HI. constructor; simpl; auto; try (split; discriminate); try discriminate.
+        * intros p0 stored I c Hc. apply in_app_or in I. destruct I as [I|[E|[]]].
+          -- apply filter_In in I. eapply ci_cat0; [exact (proj1 I)|exact Hc].
+          -- injection E as <- <-. apply memn_in. exact Hc.
+        * intros o Io. destruct (ci_obj0 o Io) as (K & Fu & Ne). split; [exact K|split; [exact Fu|]].
+          intro E. destruct (memn (p_id o) olds) eqn:Em.
+          -- apply memn_in in Em. rewrite Efl in ci_olds0. simpl in ci_olds0. left. apply ci_olds0; assumption.
+          -- destruct (Ne E) as [H|H]; [left; exact H|right].
+             apply assoc_app_l. apply assoc_filter_keep; assumption.
+        * intros o _ [].
   Qed.
 
   Lemma assoc_map_in {A} (f : nat -> A) k l : In k l -> assoc k (map (fun i => (i, f i)) l) <> None.
@@ -413,34 +570,46 @@ Section Guarded.
     unfold cinit. constructor; simpl.
     - rewrite map_map. simpl. rewrite map_id. apply seq_NoDup.
     - intros o I. apply in_map_iff in I. destruct I as (i & <- & Hi). apply in_seq in Hi. simpl. lia.
-    - intros o I. apply in_map_iff in I. destruct I as (i & <- & Hi). split; [|split]; simpl; [discriminate| |discriminate].
-      intros _. right. apply (assoc_map_in (fun _ => C)). exact Hi.
+    - intros p stored I c Hc. apply in_map_iff in I. destruct I as (i & E & _). injection E as <- <-.
+      apply memn_in. exact Hc.
+    - intros o I. apply in_map_iff in I. destruct I as (i & <- & Hi). split; [|split]; simpl.
+      + intros c h Ha. discriminate.
+      + discriminate.
+      + intros _. right. apply (assoc_map_in (fun _ => C)). exact Hi.
     - intros o _ [].
     - discriminate.
     - discriminate.
-    - intros q I. apply repeat_spec in I. subst. exact I.
+    - split; discriminate.
+    - intros q I. apply repeat_spec in I. subst. split; discriminate.
   Qed.
 
   Lemma cinv_run sched : forall st st',
-    CInv st -> (forall c, In c (sched_cols sched) -> In c C) -> sched_evicts sched = false ->
-    crun C sched st = Some st' -> CInv st'.
+    CInv st -> sched_evicts sched = false -> crun C sched st = Some st' -> CInv st'.
   Proof.
-    induction sched as [|[t a] r IH]; simpl; intros st st' HI HC HE H.
+    induction sched as [|[t a] r IH]; simpl; intros st st' HI HE H.
     - injection H as <-. exact HI.
     - destruct (cstep C t a st) as [st1|] eqn:E; [|discriminate].
-      apply (IH st1 st'); [|destruct a; simpl in HC; auto|destruct a; simpl in HE; auto; discriminate|exact H].
-      eapply cinv_step; [exact HI| | |exact E].
-      + intros c ->. apply HC. simpl. left. reflexivity.
-      + intros ->. simpl in HE. discriminate.
+      apply (IH st1 st'); [|destruct a; simpl in HE; auto; discriminate|exact H].
+      eapply cinv_step; [exact HI| |exact E].
+      intros p c ->. simpl in HE. discriminate.
   Qed.
 
-  Lemma cinv_no_panic st : CInv st -> query_panicked st = false /\ flush_panicked st = false.
+  Lemma cinv_safe st :
+    CInv st -> query_panicked st = false /\ query_wrong st = false /\ flush_panicked st = false /\ data_lost C st = false.
   Proof.
-    intros HI. split.
+    intros HI. split; [|split; [|split]].
     - unfold query_panicked. destruct (existsb _ (cqs st)) eqn:E; [|reflexivity].
       apply existsb_exists in E. destruct E as (q & Iq & Hq). destruct q; try discriminate.
-      exfalso. exact (ci_q _ HI CQ_panic Iq).
+      exfalso. exact (proj1 (ci_q _ HI _ Iq) eq_refl).
+    - unfold query_wrong. destruct (existsb _ (cqs st)) eqn:E; [|reflexivity].
+      apply existsb_exists in E. destruct E as (q & Iq & Hq). destruct q; try discriminate.
+      exfalso. exact (proj2 (ci_q _ HI _ Iq) eq_refl).
     - unfold flush_panicked. destruct (cfl st) eqn:E; try reflexivity.
-      exfalso. exact (ci_fl _ HI E).
+      exfalso. exact (proj1 (ci_fl _ HI) E).
+    - unfold data_lost. destruct (ci_fl _ HI) as (_ & NL).
+      assert (CC : cat_complete C st = true).
+      { unfold cat_complete. apply forallb_forall. intros [p stored] I. apply forallb_forall. intros c Hc.
+        simpl. eapply (ci_cat _ HI); eauto. }
+      rewrite CC. destruct (cfl st); try reflexivity. congruence.
   Qed.
 End Guarded.
